@@ -401,3 +401,78 @@ func sliceElems(v ssa.Value) []ssa.Value {
 	}
 	return out
 }
+
+// deepCall is a call matched in f itself or in an in-module helper reached from f through static calls;
+// site is the instruction of f through which it is reached (the call itself when it is in f), and args are
+// rendered in f's terms (helper parameters replaced by the arguments passed at each level).
+type deepCall struct {
+	call ssa.CallInstruction
+	site ssa.CallInstruction
+	w    *World
+	sub  map[ssa.Value]string
+}
+
+func (d deepCall) arg(i int) string {
+	a := callArgs(d.call)
+	if i >= len(a) {
+		return ""
+	}
+	return d.w.exprWith(a[i], d.sub)
+}
+
+func (d deepCall) str() string {
+	saved := d.w.subst
+	d.w.subst = d.sub
+	defer func() { d.w.subst = saved }()
+	return d.w.callStr(d.call)
+}
+
+// exprWith renders v under a parameter substitution.
+func (w *World) exprWith(v ssa.Value, sub map[ssa.Value]string) string {
+	saved := w.subst
+	w.subst = sub
+	defer func() { w.subst = saved }()
+	return w.expr(v)
+}
+
+// deepCallsTo lists the calls to specs made by f or, up to depth levels down, by in-module helpers f calls
+// statically (extract-helper refactorings are transparent to rules that use it).
+func (w *World) deepCallsTo(f *ssa.Function, depth int, specs ...string) []deepCall {
+	var out []deepCall
+	var walk func(g *ssa.Function, site ssa.CallInstruction, sub map[ssa.Value]string, d int, seen map[*ssa.Function]bool)
+	walk = func(g *ssa.Function, site ssa.CallInstruction, sub map[ssa.Value]string, d int, seen map[*ssa.Function]bool) {
+		for _, call := range callInstrs(g) {
+			s := site
+			if g == f {
+				s = call
+			}
+			if w.isCallAny(call, specs...) {
+				out = append(out, deepCall{call: call, site: s, w: w, sub: sub})
+				continue
+			}
+			if d <= 0 {
+				continue
+			}
+			if _, isGo := call.(*ssa.Go); isGo {
+				continue
+			}
+			h := staticCallee(call)
+			if h == nil || h.Blocks == nil || seen[h] || !strings.HasPrefix(pkgPathOf(h), modPath) || pkgPathOf(h) != pkgPathOf(f) {
+				continue
+			}
+			args := call.Common().Args
+			if len(args) != len(h.Params) {
+				continue
+			}
+			nsub := map[ssa.Value]string{}
+			for i, p := range h.Params {
+				nsub[p] = w.exprWith(args[i], sub)
+			}
+			seen[h] = true
+			walk(h, s, nsub, d-1, seen)
+			delete(seen, h)
+		}
+	}
+	walk(f, nil, nil, depth, map[*ssa.Function]bool{f: true})
+	return out
+}
